@@ -6,8 +6,10 @@ Nothing in this file decides a property; it only talks to the recorder.
 import hashlib
 import json
 import os
+import select
 import subprocess
 import struct
+import time
 
 VERIF = os.path.dirname(os.path.dirname(os.path.abspath(__file__)))
 HARNESS = os.path.join(VERIF, "harness")
@@ -158,7 +160,7 @@ class Session:
     """One interpreter process for one suite. Every command sent is optionally tee'd to a script
     file that `okv --script` can replay under a sanitizer."""
 
-    def __init__(self, suite, flavour="release", tee=None, wrapper=None):
+    def __init__(self, suite, flavour="release", tee=None, wrapper=None, record=False):
         self.suite = suite
         self.sz = Sizes(suite)
         argv = list(wrapper or []) + [binary(flavour), suite]
@@ -166,6 +168,8 @@ class Session:
                                   bufsize=1 << 16)
         self.ncalls = 0
         self.tee = open(tee, "w") if tee else None
+        self.call_timeout = None      # seconds; None = wait forever (the job watchdog bounds the run)
+        self.raw = [] if record else None   # when a list: every raw reply line is appended (for cross-build comparison)
         self.last = None
         self._n = 0
         info = self.cmd("info")
@@ -189,6 +193,13 @@ class Session:
         try:
             self.p.stdin.write(line.encode() + b"\n")
             self.p.stdin.flush()
+            if self.call_timeout is not None:
+                t0 = time.time()
+                # strict request/reply, one line each: nothing is left buffered between calls
+                rl, _, _ = select.select([self.p.stdout], [], [], self.call_timeout)
+                if not rl:
+                    self.p.kill()
+                    return Reply(ok=False, died=True, timeout=True, waited_s=round(time.time() - t0, 1), open_call=c)
             out = self.p.stdout.readline()
         except BrokenPipeError:
             out = b""
@@ -203,6 +214,8 @@ class Session:
             # the process died inside this call: an open call (abort / stack overflow / signal)
             r = Reply(ok=False, died=True, returncode=rc, stderr=err.decode("latin1"), open_call=c)
             return r
+        if self.raw is not None:
+            self.raw.append(out.decode().rstrip("\n"))
         r = Reply(json.loads(out))
         if "harness_error" in r:
             raise HarnessError("%s: %s (cmd %s)" % (self.suite, r["harness_error"], line[:300]))
